@@ -1,9 +1,14 @@
 import os
 SOLVER = os.environ.get("C16_SOLVER", "cadical")
-SIZES = {"quick": (4, 8), "thorough": (2,)}
+SIZES = {"quick": (4, 8), "thorough": (1, 2, 3, 4, 5, 6, 7, 8)}
+N2MAX = {"quick": 4, "thorough": 5}   # two-round histories up to this buffer size
 KF = {"KF_TASK_ERR_DROPPED": None, "KF_TASK_TIMER_UDATA": None}
 
 META = {"bounds": "", "outside": "", "assumptions": [], "harness_functions": []}
+
+GROUPS = [("mv", None, r"\[cb\]|\[arm\]", "requests, bytes against the ghost stream, cursors, totals, memory safety"),
+          ("cb", r"\[cb\]", None, "exactly-one callback for EOF/error/timeout/completion, callback arguments, carried totals"),
+          ("arm", r"\[arm\]", None, "timer/I-O mutual disabling before the callback, re-arm iff CONTINUE, start/restart sequences")]
 
 def jobs(tier):
     out = []
@@ -11,15 +16,26 @@ def jobs(tier):
         for typ in (0, 1):
             for ev, evn in ((0, "read"), (1, "write")):
                 for mode, nst in ((0, 1), (0, 2), (1, 1)):
-                    out.append({
-                        "name": "task-%s-%s-m%d-n%d-s%d" % ("sr" if typ else "rw", evn, mode, nst, size), "src": "task.c",
-                        "defs": dict(KF, SIZE=size, TYPE=typ, EVENT=ev, MODE=mode, NSTEPS=nst),
-                        "unwind": 2 * size + 6,
-                        "unwindset": ["tp_task_handler.3:%d" % (size + 2), "tp_task_handler.6:%d" % (size + 2), "io_call.0:%d" % (size + 1)],
-                        "solver": SOLVER,
-                        "shape": "buffer size %d, %s handler, %s event, mode %d" % (size, "send/recv" if typ else "pread/pwrite", evn, mode),
-                        "desc": "bytes, cursors, totals, exactly-one callback, re-arm iff CONTINUE",
-                    })
+                    if nst == 2 and size > N2MAX[tier]:
+                        continue
+                    for g, inc, exc, gd in GROUPS:
+                        out.append({
+                            "name": "task-%s-%s-m%d-n%d-s%d-%s" % ("sr" if typ else "rw", evn, mode, nst, size, g), "src": "task.c",
+                            "defs": dict(KF, SIZE=size, TYPE=typ, EVENT=ev, MODE=mode, NSTEPS=nst),
+                            "unwind": 2 * size + 6, "prop_include": inc, "prop_exclude": exc,
+                            "unwindset": ["tp_task_handler.3:%d" % (size + 2), "tp_task_handler.6:%d" % (size + 2), "io_call.0:%d" % (size + 1)],
+                            "solver": SOLVER, "timeout": 300,
+                            "shape": "buffer size %d, %s handler, %s event, %s, %d round(s)" % (
+                                size, "send/recv" if typ else "pread/pwrite", evn,
+                                "handler called as by tpt_loop" if mode == 0 else "tp_task_start_ex(shedule_first_io=0)", nst),
+                            "desc": gd,
+                        })
+    for hnd, hn in ((0, "notify"), (1, "pkt_rcvr"), (2, "accept"), (3, "connect")):
+        out.append({"name": "task2-%s" % hn, "src": "task2.c", "defs": dict(KF, HND=hnd, SIZE=4, NREC=2), "unwind": 12,
+                    "unwindset": ["tp_task_pkt_rcvr_handler.4:4", "tp_task_accept_handler.1:4"], "solver": SOLVER, "timeout": 300,
+                    "shape": "%s handler, one event (I/O with any EOF/ERROR flags, or timeout), <= 2 datagrams/connections, buffer 4" % hn,
+                    "desc": "one callback per datagram/connection/error/timeout with the right arguments, window placement, "
+                            "mutual disabling, re-arm iff CONTINUE"})
     out.append({"name": "task-control-s2", "src": "task.c", "defs": dict(KF, SIZE=2, TYPE=1, EVENT=0, MODE=2), "unwind": 14,
                 "solver": SOLVER, "shape": "started sr read task; enable/disable, stop, restart, destroy with any registration results",
                 "desc": "call sequences, error propagation, nothing left registered after stop/destroy/failed restart"})
